@@ -92,7 +92,8 @@ def run(ck):
     ck.require_monitor("listing-equals-model", "operation-result", "timestamps", "failed-op-state", "failed-rename-keeps-source",
                        "two-writers-at-most-one-no-overwrite-add-wins")
     ck.require_reach("two-writers-publish-collided", "two-writers-loser-got-ExistingChildError", "two-writers-sequential",
-                     "two-writers-only-files-vs-directory", "two-writers-free-interleaving")
+                     "two-writers-only-files-vs-directory", "two-writers-free-interleaving",
+                     "non-nfc-name-whose-largest-code-point-is-the-combining-mark")
     ck.require_reach("no-overwrite-add-refused", "only-files-refused-directory", "only-files-replaced-file", "rename-across-directories",
                      "rename-within-directory", "self-rename", "rename-onto-existing", "rename-refused-target-exists",
                      "delete-wrong-type-refused", "delete-missing-refused", "metadata-updated", "no-write-diminished",
@@ -118,8 +119,8 @@ def two_writers(ck, g, rng, caseno):
         D.ok(g, d0.set_children({n_: ((c_, None) if D.CapInfo(c_).is_write else (None, c_)) for n_, c_ in existing.items()}), "set_children")
     nodeA, nodeB = cA.create_node_from_uri(cap), cB.create_node_from_uri(cap)
     mode = rng.choice(["no-overwrite", "no-overwrite", "only-files"])
-    base = rng.choice(["n", "é", "Å", "x:y"])
-    spell = [x for x in ("é", "é", "Å", "Å", "Å") if D.nfc(x) == D.nfc(base)] or [base]
+    base = rng.choice(["n", "é", "Å", "x:y", D.gen_unstable(rng), D.gen_unstable(rng)])
+    spell = [x for x in ("\u00e9", "e\u0301", "\u00c5", "A\u030a", "\u212b", base, D.nfc(base)) if D.nfc(x) == D.nfc(base)] or [base]
     nameA, nameB = rng.choice(spell), rng.choice(spell)
     name = D.nfc(base)
     X = D.fake_cap(rng, rng.choice(["SSK", "MDMF", "CHK"]))
@@ -448,7 +449,10 @@ class History(object):
         self.c = c = g.make_client(k=2, happy=1, n=4)
         self.tag = 0
         base = rng.choice(D.NFC_CHANGING)
-        self.names = list({base, D.nfc(base), "é", "é", "a", "b", rng.choice(D.AWKWARD), D.gen_name(rng)})
+        u_ = D.gen_unstable(rng)        # boundary-biased: the combining mark (often U+0300) is the largest code point
+        self.names = list({base, D.nfc(base), u_, D.nfc(u_), "\u00e9", "e\u0301", "a", rng.choice(D.AWKWARD), D.gen_name(rng)})
+        if D.mark_is_max(u_):
+            ck.hit("non-nfc-name-whose-largest-code-point-is-the-combining-mark")
         rng.shuffle(self.names)
         self.dirs = []
         for k in range(rng.randint(1, 3)):
